@@ -681,14 +681,14 @@ func (g *Rig) unmet(parked bool) string {
 		}
 		need := 0 // items produced by resolver goroutines (all of them while a call is parked)
 		for i, e := range s.Exp {
-			if !e.Optional && (parked || e.Async) {
+			if !e.Optional && !e.Pending && (parked || e.Async) {
 				need = i + 1
 			}
 		}
 		if need > 0 {
 			n := 0
 			for _, e := range s.Exp[:need] {
-				if !e.Optional {
+				if !e.Optional && !e.Pending {
 					n++
 				}
 			}
